@@ -401,3 +401,94 @@ claim('C12',
       'Lean 4 proofs over an exact executable model + differential correspondence with mpmath re-evaluation of the floating-point tail',
       'DESIGN.md section 5 C12')
 
+
+
+NOTES_RSAALL = (
+    'End-to-end model of paranoid.CheckAllRSA (Model/RsaAll.lean checkAllRSAFull): the seventeen per-check models (Model/RsaChecks, ClosedForm, BatchGcd) '
+    'are plugged into the bookkeeping layer (Model/Checks checkAllRSA) in place of its verdict oracle, dispatching on the check NAME of the regenerated registry '
+    '(a registry name without a model is an error: unknown_check_is_error, registry_modelled). Oracles left: LLL bases per (key, d0), float cube root, unseeded candidate order, '
+    'SHA-1 digest, keypair generator output, Pollard product, deny list, keypair table, constructor defaults. '
+    'Lean theorems (Props/RsaAll.lean, namespace Paranoid.RsaAll, 12 theorems, axioms propext/Classical.choice/Quot.sound), all by COMPOSITION of C01/C03/C06/C16/C18: '
+    'checkAllRSA_total (C18 end to end: returns for every batch incl. empty of moduli >= 2^63 of any shape, any exponent, every oracle answer with LLL rows of length >= 2, non-zero listed PRNG outputs, parsable keypair metadata; '
+    'checkAllRSA_needs_64_bits: conversely a returning run saw only moduli >= 2^63), '
+    'checkAllRSA_entries (C16 end to end: length kept; per key exactly one entry per registry check in registry order, entry j = (name_j, verdict_j.positive, severity rule) with verdict_j = rsaVerdict name_j on THAT key; '
+    'weak <-> some entry positive; version recorded; return value <-> some key weak; entry_severity: documented severity except CheckLowHammingWeight UNKNOWN when flagged without factors, and it is the only check with that rule; lhw_verdict), '
+    'checkAllRSA_factors_sound (C01 end to end on the final protobuf: N_FACTORS / N-1_FACTORS readable, every stored value is a natural number dividing n resp. n-1, an existing record is non-empty, any record => key weak; for EVERY oracle answer), '
+    'record_names (only CheckGCDN1 writes N-1_FACTORS and nothing else; no RSA check calls AttachInfo), '
+    'checkAllRSA_factors_proper_partial (proper-divisor clause for the records of CheckContinuedFractions, CheckBitPatterns, CheckPermutedBitPatterns, CheckPollardpm1, CheckUnseededRand, CheckSmallUpperDifferences and CheckGCD: '
+    'the final N_FACTORS contains a proper divisor unless — CheckGCD only — n divides another different modulus of the batch); the full clause ProperClause is a def, NOT asserted: for CheckFermat / CheckHighAndLowBitsEqual / CheckLowHammingWeight '
+    'only x*y = n is proved (trivial pair needs e.g. a Fermat step bound ~ n/2), and for CheckKeypairDenylist it needs the hypothesis that the generator returns values > 1 (properClause_needs_generator: kernel-evaluated counterexample with a generator answering (1, n)), '
+    'checkAllRSA_single_independent (C17 end to end: two runs — any batches, positions, neighbours — that agree on one key (n, e), on that key\'s oracle answers and on the singleton state give it the same fifteen single-check entries and verdicts). '
+    'Correspondence (harness/corr/rsaall.py, ./check RsaAll, 53 batches per quick run, seeds 1-9 green, 35-75 s): REAL paranoid.CheckAllRSA on fresh protobufs, batches of 0-6 keys of 512-1024 bits (plus one 2048-bit healthy key: the only not-weak outcome, '
+    'and 62-bit moduli: ValueError on both sides) mixing healthy keys with every weak family (Fermat, equal high/low bits, bit patterns, smooth p-1 one/both sides, low Hamming weight factored / only suspected, leading ones, small upper difference, unseeded PRNG with 1023- and 1024-bit moduli, '
+    'exponent, OpenSSL deny list, keypair deny list and same-prefix decoys, ROCA, ROCA variant, duplicates, shared primes, pq|pr|qs triangle, nested moduli, n-1 gcd above/below 2^128, nine degenerate shapes); all oracles recorded at the call site or re-evaluated on the model\'s input; '
+    'the model must reproduce the COMPLETE test_info of every key (entries, order, severities, weak, version, factor sets under both names) and the return value. Constructor parameters exercised: Pollard bound 2^12 (product passed as register), Fermat step bound 100000 / 20000 / 3000 / 0, '
+    'synthetic + shipped deny list and keypair table. pred on every case (implementation only): C01 clauses on the final protobufs AND per check via a spy on the util calls (factors only with a positive entry of THAT check, right record name, divisibility, proper divisor unless nested), '
+    'C16 clauses, C18 (no exception on moduli >= 2^63), planted expectations of the deterministic families. Mutants of /repo detected (VIOLATION with failing input and replay): CheckPollardpm1 attaching factors without result=True; CheckGCDN1 attaching under N_FACTORS; '
+    '_CheckArtifacts skipping the last check; CheckUnseededRand with psize = bit_length // 2. '
+    'Not covered: pre-annotated protobufs through the composed model (C16 covers them with verdict oracles); partially annotated state after an exception; the INFO name constants are literals of Model/RsaAll.lean compared with consts.py by the op rsaall.names on every run.')
+
+
+
+NOTES_ECALL = (
+    'End-to-end models of the two entry points paranoid.CheckAllEC and paranoid.CheckAllECDSASigs (Model/EcAll.lean, Mathlib-free, linked into the driver): '
+    'checkAllECFull = Checks.checkAllEC .repaired O I arts and checkAllECDSASigsFull = Checks.checkAllECDSASigs .repaired O I arts in which the per-check verdict oracle O and the '
+    'inner CheckAllEC verdicts I of CheckIssuerKey are no longer inputs: they are COMPUTED, by check NAME over the regenerated registries Consts.ecAllChecks / Consts.ecdsaAllChecks, '
+    'from the check models of Model/Bsgs.lean (CheckValidECKey, CheckWeakCurve, CheckWeakECPrivateKey, CheckECKeySmallDifference on CURVE_FACTORY as regenerated) and of '
+    'Model/EcdsaChecks.lean (six BiasedBaseCheck kinds, CheckCr50U2f). _table/_table_size of every process-wide EcCurve object is threaded through the checks in registry order, '
+    'also through the inner CheckAllEC of CheckIssuerKey (same curve objects); _cache is threaded through the nonce checks. Remaining oracles (arguments, recorded at the call site): '
+    'int(math.sqrt(.)) of BatchDL / PointTable, lattice-solver answers, list(set) orders. A registry name without a model is Err.noModel, a disagreement between a check model and the '
+    'bookkeeping layer about which artefacts get an entry is Err.shape (proved impossible) - never a silent pass. Verdict conversion: DISCRETE_LOG = format(d,"x"), '
+    'DISCRETE_LOG_DIFF = "key - (%x, %x) = %d * G". '
+    'Theorems (Props/EcAll.lean, namespace Paranoid.EcAll, 9 theorems, axioms propext / Classical.choice / Quot.sound; all are compositions of C02S / C06 / C10 / C16 / C18 through the glue of '
+    'Proofs/EcAll.lean; hypothesis FieldPrimes = the nine field moduli are prime): '
+    'checkAllECFull_total, checkAllECDSASigsFull_total (C18 end to end: on well-formed calls - ECWF: reachable _table states, every key with a known curve id is a reduced point of its curve, '
+    'float oracles >= 1 where a table is built; SigWF: valid curve objects = CURVE_FACTORY up to _cache, enumerating set-order oracles, s invertible mod n, well-formed inner CheckAllEC call on the '
+    'distinct issuer keys - with the literal 2**32 and any max_diff, every registered check returns, model and bookkeeping agree on applicability, the bookkeeping does not raise on any pre-existing '
+    'test_info, and the states left behind satisfy the hypotheses again); '
+    'checkAllEC_dlogs_sound (C02 end to end, ANY batch incl. off-curve / unreduced / duplicate / unknown-curve neighbours, any bound, max_diff, table state and float values: on fresh keys a DISCRETE_LOG '
+    'attached to a key on a known curve is format(v,"x") with v*G = P whenever the key is a valid point; a DISCRETE_LOG_DIFF is the string of a relation that - when all keys of that curve id are on the '
+    'curve - names ANOTHER key Q of the batch on the same curve with P != Q and P - Q = d*G); '
+    'checkAllECDSA_weak_only_with_key + checkAllECDSA_issuer_entry + checkAllECDSA_weak_only_with_key_or_weak_issuer (C02 end to end: a fresh signature is weak afterwards only if a registered nonce check '
+    'recorded a positive entry because a guess d handed to _IssuerDLogs for its own curve group is a private key of its OWN issuer key tuple, or its CheckIssuerKey entry is positive; every DISCRETE_LOG it carries is '
+    'format(d,"x") of such a d; the CheckIssuerKey entry is positive IFF the end-to-end CheckAllEC model, run on the de-duplicated (curve id, x, y) issuer keys from the table state the earlier checks left, marks '
+    'that signature\'s own issuer key weak - C16.issuer_verdict with the real inner model - and then carries the HIGHEST severity among the key\'s failed EC checks, SEVERITY_UNKNOWN otherwise); '
+    'checkAllEC_entries, checkAllECDSA_entries (C16 end to end on fresh artefacts: exactly one entry per registered check that applies - all checks iff the curve id is in CURVE_FACTORY, else CheckValidECKey / '
+    'CheckIssuerKey alone -, in registry order, each (check_name, verdict of the check model, documented severity); weak iff some entry positive; version recorded; return value iff some artefact weak; length and key material kept). '
+    'Non-vacuity: ECWF with the REAL parameters on a mixed batch, and kernel-evaluated runs of both composed models (3*G on secp192r1 gets DISCRETE_LOG "3"; unknown / binary-field issuer curves get CheckIssuerKey severity 2). '
+    'Correspondence (harness/corr/ecall.py, check id EcAll): the REAL paranoid.CheckAllEC / paranoid.CheckAllECDSASigs on fresh (and re-run) protobufs, every oracle recorded at its call site, the model asked for the WHOLE batch; '
+    'compared: complete test_info of every artefact, return value, _table_size of every curve object, len(_cache), solver-call arguments of every registered check, set-order consistency. quick: 59 batches (~25 s; '
+    'CheckECKeySmallDifference(max_diff=2**10), BatchDL bound 2**16 - both parameters of the model -, JavaUtilRandom LCG solver substituted by a stub except once); thorough: 220+ batches incl. the registered singletons with 2**32 / 2**24 (~10 min). '
+    'Batches: 1-7 EC keys over 2-3 curves (healthy, i*2^(8j), repeated 32-bit word, n - small, small-difference pairs and triples, duplicates, off-curve, (0,0), unreduced x+p / y+p, unknown and binary-field ids, secp192r1, P and -P, '
+    'same private key on two curves, table history); 4-12 signatures over 1-2 curves and 1-3 issuers (planted MSB bias with 8 signatures - real LLL finds the key -, healthy, fake, duplicate signatures, issuer key structured / '
+    'close to another issuer / invalid / unreduced / unknown curve / weak curve, same coordinates under two curve ids, substituted Cr50 answer d+n). pred (always evaluated, independent affine arithmetic of corr/c11.py): the C02 clauses '
+    'above and the C16 clauses on the final protobufs, CheckIssuerKey against a fresh real CheckAllEC run on the distinct issuer keys. Mutants detected with VIOLATION + replay (3 seeds for the first): CheckWeakECPrivateKey attaches '
+    'the previous key\'s dlog; CheckIssuerKey copies SEVERITY_UNKNOWN; CheckValidECKey stops after the first invalid key; CheckIssuerKey de-duplicates by (x,y) only (D18 reverted); mirrored difference relation with the wrong sign. '
+    'driver_model_agree: the hash-map instance the native driver runs and the association-list instance of the theorems give the same error or the same annotated batch, return value, per-check outputs and related states, for every bound. '
+    'Not covered by a theorem: the quick-tier instance of the model with bound != 2**32 for TOTALITY (soundness, entries and driver agreement hold for every bound); state left behind by a raising call.')
+
+
+
+# ---- additions after the end-to-end compositions, Pratt certificates and completeness lemmas
+def _add(pid, more, note_more=None):
+  CLAIMS[pid]['text'] = CLAIMS[pid]['text'] + ' ' + more
+  if note_more:
+    CLAIMS[pid]['note'] = CLAIMS[pid]['note'] + ' ' + note_more
+
+
+_add('C01', 'END TO END (Props/C16RsaAll.lean, audited by ./check C16): with every per-check verdict computed by its model (no verdict oracle left), after CheckAllRSA on fresh keys every value stored under N_FACTORS divides n, every value under '
+            'N-1_FACTORS divides n-1, any record implies the key is weak (checkAllRSA_factors_sound), no other record exists (checkAllRSA_records), and records made by the gcd-based checks contain a proper divisor unless (CheckGCD) n divides another '
+            'modulus (checkAllRSA_factors_proper_partial; for Fermat/HLBE/LHW only x*y = n is provable for every constructor parameter, and for the keypair check it needs the generator to return values > 1: properClause_needs_generator).')
+_add('C04', 'The equal-high-and-low-bits clause is now a theorem too (Props/C04Hlbe.lean hlbe_complete): for distinct odd primes of equal bit length agreeing on r >= 3 low and s high bits with r + s >= bitlen(n)/4 + 2, FactorHighAndLowBitsEqual(n, 3) '
+            'returns the factors or FermatFactor finds them in its first step (hlbe_complete_sharp: for every middle_bits and every step bound >= 1), via the loop invariant of the bit-fixing walk (hlbe_walk_invariant) and uniqueness of 2-adic square roots.')
+_add('C05', 'The PRE half of the lattice sandwich is proved (Props/C05Pre.lean): for p = (a*w + c)/d the vector (c*x, -a*x, c*e) is an explicit integer combination of the rows of the lattice CheckFraction builds, with entry bounds 2|c|d, 2|a|d, |c|(|c|m + d - 1) '
+            '(fraction_pre, fraction_vector_small = the docstring\'s derivation), its value is x*d*p (fraction_vector_value), so any basis containing +- that row yields both primes (fraction_sandwich); a w-bit word repeated k times apart from t low bits has exactly this form with '
+            'd = 2^w - 1 and |c| < 2^(w+t) (repetition_is_fraction, repetition_sandwich); the denominators tried by CheckBitPatterns / CheckPermutedBitPatterns are exactly the documented lists, first success wins (bitpatterns_enum, permuted_enum, tried_first_success). '
+            'Only "LLL returns the planted short vector" and the Hamming-weight heuristic remain oracle assumptions.')
+_add('C11', 'Primality of all 18 curve constants (field primes and group orders of the nine curves) is no longer a hypothesis: kernel-checked Pratt certificates regenerated with the constants (Props/C11Primes.lean, curve_primes_certified; factorisations cached in harness/consts/pratt_cache.json are hints, the kernel re-checks every certificate), '
+            'hence hypothesis-free: G has order exactly n and the curve is elliptic over the field ZMod p for every named curve (generator_order_certified, curves_elliptic_certified).')
+_add('C16', 'END TO END: the verdict oracle is instantiated by the per-check models for all three entry points (Props/C16RsaAll.lean, Props/C16EcAll.lean): checkAllRSA_entries / checkAllEC_entries / checkAllECDSA_entries (exactly the registry entries in registry order with the documented severities, weak iff some entry positive, return iff some artefact weak), '
+            'checkAllECDSA_issuer_entry (issuer verdict = the full EC entry point on the de-duplicated issuer keys); the real CheckAllRSA / CheckAllEC / CheckAllECDSASigs are compared with these composed models on whole batches every run, every oracle (LLL, float roots, set orders, hashes, generator) recorded at its call site.')
+_add('C17', 'End to end: checkAllRSA_single_independent (Props/C16RsaAll.lean) — two runs that agree on a key and its oracle answers give it identical entries for the fifteen single checks.')
+_add('C18', 'End to end: checkAllRSA_total (every n >= 2^63, well-formed oracles, any exponent, empty batch included), checkAllECFull_total, checkAllECDSASigsFull_total (Props/C16RsaAll.lean, Props/C16EcAll.lean).')
+_add('C02', 'End to end (Props/C16EcAll.lean): checkAllEC_dlogs_sound and checkAllECDSA_weak_only_with_key_or_weak_issuer state the same on the final protobufs of the real entry points.')
